@@ -113,3 +113,19 @@ Theorem C04_gregory_quota_for_every_accepted_file : forall A S (ZL : zlike A S) 
   raw ZL (quota s) = q /\ Forall (fun sn => raw ZL (as_quota sn) = q) (snaps A (actions s)).
 Proof. exact accepted_gregory_quota. Qed.
 Print Assumptions C04_gregory_quota_for_every_accepted_file.
+
+(* ---- QPQ: "the quota is the prescribed one" after every tally.  QPQ recomputes its quota at every tally from the totals the tally has
+   just recorded: active votes / (1 + seats - the share of the inactive ballots).  In every state, under every arithmetic: if the tally
+   does not crash, the quota in force afterwards is that function of the recorded totals ([qpq_quota]); its value in raw units, for
+   every arithmetic satisfying the laws, is floor(active * S / ((1 + seats) * S - inactive))  (Proofs/QpqQuota.v) ---- *)
+From Droop Require Import Model.RulesMeek Proofs.QpqQuota.
+Theorem C04_qpq_quota_after_every_tally : forall A cfg (s : est A), crashed (qpq_tally A cfg s) = false ->
+  qpq_quota A cfg (qpq_tally A cfg s) = Ok (quota (qpq_tally A cfg s)).
+Proof. exact qpq_tally_quota. Qed.
+Print Assumptions C04_qpq_quota_after_every_tally.
+
+Theorem C04_qpq_quota_value : forall A S (ZL : zlike A S) cfg (s : est A), crashed (qpq_tally A cfg s) = false ->
+  raw ZL (quota (qpq_tally A cfg s)) =
+  raw ZL (lv_va (qpq_tally A cfg s)) * S / ((1 + cf_nseats cfg) * S - raw ZL (lv_tx (qpq_tally A cfg s))).
+Proof. exact qpq_tally_quota_value. Qed.
+Print Assumptions C04_qpq_quota_value.
